@@ -3,6 +3,7 @@ import VtProofs.PMTiles
 import VtProofs.PMFind
 import VtProofs.Hilbert
 import VtProofs.VersatilesRead
+import VtProofs.PMTilesRead
 /-!
 # C16 — readers accept every container that is valid by the published format layouts
 
@@ -124,6 +125,35 @@ theorem versatiles_reader_complete {K : Inflate} {file : Bytes} {fmt : TileForma
     ∃ r, Versatiles.openReader K file = .ok r ∧ r.header.fmt = fmt ∧ r.header.comp = comp ∧
       ∀ x y z, z ≤ 31 → Versatiles.getTile r x y z = .ok (m (x, y, z)) :=
   VtProofs.VersatilesRead.versatiles_complete v
+
+/-! ## PMTiles: completeness of the reader against the published directory layout -/
+
+/-- **C16 (PMTiles)**: any file that is valid by the relational description of the v3 layout
+    (`VtProofs.PMTilesRead.ValidPMTiles`: header; metadata, root and leaf directories readable and
+    inflatable; a directory tree of height ≤ 2 with strictly increasing ids, run lengths ending before
+    the next entry, leaf pointers `run_length = 0` to sub-trees covering `[id, next id)`, tile data
+    inside the file; shared offsets are unrestricted) for the map `m` is opened — including the
+    coverage walk over every run — and every lookup of a valid coordinate returns exactly `m`. -/
+theorem pmtiles_reader_complete {K : Inflate} {file : Bytes} {fmt : TileFormat} {comp : TComp}
+    {m : Nat × Nat × Nat → Option Bytes} (v : VtProofs.PMTilesRead.ValidPMTiles K file fmt comp m) :
+    ∃ r, PMTiles.openReader K file = .ok r ∧ PMTiles.fmtOfType r.header.ttype = fmt ∧
+      PMTiles.compOfCode r.header.tcomp = .ok comp ∧
+      ∀ x y z, z ≤ 31 → x < 2 ^ z → y < 2 ^ z → PMTiles.getTile r x y z = .ok (m (x, y, z)) :=
+  VtProofs.PMTilesRead.pmtiles_complete v
+
+/-- every addressed non-empty tile is returned (any height `d`, fuel `d + 1`) -/
+theorem pmtiles_lookup_found (r : PMTiles.Reader) (C : VtProofs.PMTilesRead.Ctx) (rc : VtProofs.PMTilesRead.RC r C)
+    (d lo hi : Nat) (raw : Bytes) (i : Nat) (t : PMTiles.Entry)
+    (hwf : VtProofs.PMTilesRead.WFDir C d lo hi raw) (ha : VtProofs.PMTilesRead.Addr C d raw i t) (hl : t.len > 0) :
+    PMTiles.lookupLoop r i (d + 1) raw = .ok (some (slice C.file ⟨t.off + C.dataOff, t.len⟩)) :=
+  VtProofs.PMTilesRead.lookup_found r C rc d lo hi raw i t hwf ha hl
+
+/-- nothing else is returned -/
+theorem pmtiles_lookup_absent (r : PMTiles.Reader) (C : VtProofs.PMTilesRead.Ctx) (rc : VtProofs.PMTilesRead.RC r C)
+    (d lo hi : Nat) (raw : Bytes) (i : Nat) (hwf : VtProofs.PMTilesRead.WFDir C d lo hi raw)
+    (hno : ∀ t, VtProofs.PMTilesRead.Addr C d raw i t → t.len = 0) :
+    PMTiles.lookupLoop r i (d + 1) raw = .ok none :=
+  VtProofs.PMTilesRead.lookup_absent r C rc d lo hi raw i hwf hno
 
 /-! ## non-vacuity -/
 
